@@ -1,6 +1,8 @@
 #!/usr/bin/env python3
 """Regenerates /verif/MANIFEST.json from the table below (run after adding a check)."""
-import json, os, subprocess
+import json, os, subprocess, sys
+if "--force" not in sys.argv:
+    sys.exit("tools_manifest.py: STALE - MANIFEST.json has been edited by hand since the third session (level texts of later sessions are not in the table below); running this would overwrite them. Edit MANIFEST.json directly, or pass --force.")
 HERE = os.path.dirname(os.path.abspath(__file__))
 ALL = ["C%02d" % i for i in range(1, 21)]
 
